@@ -120,4 +120,8 @@ Cfg == [n |-> NodeId, name |-> CfgName, tc |-> TC0, rc |-> RC0, sync |-> Sync0, 
 EmitEdge == hist = <<>> \/ (/\ PrintT(<<"EDGE", ToJson([c |-> Cfg, s |-> prev, e |-> hist[Len(hist)], d |-> View, p |-> Probe])>>)
                             /\ (Probe2Letters = <<>> \/ PrintT(<<"EDGE", ToJson([c |-> Cfg, s |-> prev, h |-> <<hist[Len(hist)]>>, d |-> View, p |-> RunLetters(p, Probe2Letters, <<>>)])>>)))
 EmitWalk == Len(hist) < WalkLen \/ (PrintT(<<"WALK", ToJson([c |-> Cfg, h |-> hist, p |-> Probe])>>) /\ FALSE)
+\* VIEW of the model-checking configurations: TLC evaluates invariants only on states it has not seen before, and "seen" is
+\* decided on the VIEW; a step verdict kept in a ghost variable must therefore be part of it, or a violating edge INTO A KNOWN
+\* STATE would be discarded unexamined (the generation configurations keep the plain View: the verdict is not behaviour)
+ViewM == <<View, gh>>
 =============================================================================
